@@ -172,6 +172,7 @@ Proof.
   intros w v m fs H. unfold finalize.
   destruct (w_finalized w); [exact H|].
   destruct ((U16MAX <? vt_width v) || (U16MAX <? vt_height v)); [exact H|].
+  destruct (param_sets_too_long (w_vconfig w)); [exact H|].
   destruct (if fs then finalize_fast_start w v m (effective_config w)
             else finalize_standard w v m (effective_config w)) as [bufs term].
   destruct (run_plan bufs (w_bytes_written w) (w_sink w)) as [[bw s] e].
@@ -506,6 +507,7 @@ Proof.
   intros H. unfold finalize.
   destruct (w_finalized w); [exact H|].
   destruct ((U16MAX <? vt_width v) || (U16MAX <? vt_height v)); [exact H|].
+  destruct (param_sets_too_long (w_vconfig w)); [exact H|].
   destruct (if fs then finalize_fast_start w v m (effective_config w)
             else finalize_standard w v m (effective_config w)) as [bufs term].
   destruct (run_plan bufs (w_bytes_written w) (w_sink w)) as [[bw s] e].
